@@ -1,5 +1,6 @@
 import CogentModel.Json
 import CogentModel.Model.Prune
+import CogentModel.Model.PruneCompressed
 /-! JSON commands shared by the C02 and C11 drivers (exact-rational shadow of a likelihood function). -/
 open CogentModel CogentModel.Prune
 
@@ -61,6 +62,46 @@ def cmdLf (j : J) : Except String J := do
                 ("lh_bins", J.arr (perBin.map fun l => J.arr (l.map J.ofRat))),
                 ("brute", J.arr bf)]
 
+/-- every subtree with the edge index of its top node (`-1` for the root), pre-order -/
+partial def subtrees (P : Array (Array (Array Rat))) (j : J) : Except String (List (Int × PTree Rat Nat)) := do
+  let e ← (← j.get "e").toInt
+  let t ← parseTree P j
+  match j.get? "l" with
+  | some _ => return [(e, t)]
+  | none =>
+    let cs ← (← (← j.get "c").toList).mapM (subtrees P)
+    return (e, t) :: cs.flatten
+
+/-- the `clf` command: the hierarchically compressed evaluation (`Model/PruneCompressed.lean`);
+returns every node's `uniq`/`index` (first bin) and the full-length likelihoods -/
+def cmdClf (j : J) : Except String J := do
+  let m ← (← j.get "m").toNat
+  let symbols := (← (← j.get "symbols").toListOf ratVec).toArray
+  let cols ← (← j.get "cols").toListOf natList
+  let bprobs ← (← j.get "bprobs").toListOf J.toRat
+  let binsJ ← (← j.get "bins").toList
+  let n := cols.length
+  let seqs : Nat → List Nat := fun a => cols.map fun c => c.getD a 0
+  let symProf : Nat → Nat → Rat := fun sym => vecFn (symbols.getD sym #[])
+  let fulls ← binsJ.mapM fun b => do
+    let P := (← (← b.get "P").toListOf ratMat).toArray
+    let pi ← ratVec (← b.get "pi")
+    let t ← parseTree P (← j.get "tree")
+    return clhFull m n (vecFn pi) seqs symProf t
+  let full : List Rat := match fulls with
+    | [x] => x
+    | _ => (List.range n).map fun c => weightedSum bprobs (fulls.map fun f => f.getD c 0)
+  let nodes ← match binsJ with
+    | b :: _ => do
+      let P := (← (← b.get "P").toListOf ratMat).toArray
+      let subs ← subtrees P (← j.get "tree")
+      pure (subs.map fun (e, t) =>
+        let c := cplh m n seqs symProf t
+        J.obj [("e", J.num e), ("index", J.arr (c.index.map J.ofNat)),
+               ("uniq", J.arr (c.uniq.map fun r => J.arr (r.map J.ofNat)))])
+    | [] => pure []
+  return J.obj [("full", J.arr (full.map J.ofRat)), ("nodes", J.arr nodes)]
+
 /-- `_indexed` on lists of integer keys -/
 def cmdIndexed (j : J) : Except String J := do
   let vals ← (← j.get "values").toListOf (fun x => x.toListOf J.toInt)
@@ -72,6 +113,7 @@ def cmdIndexed (j : J) : Except String J := do
 def handle (cmd : String) (j : J) : Except String J :=
   match cmd with
   | "lf" => cmdLf j
+  | "clf" => cmdClf j
   | "indexed" => cmdIndexed j
   | _ => throw s!"unknown command {cmd}"
 
